@@ -32,6 +32,15 @@ def ordValue : SL.Ord → Value
   | .acqrel => ordering "AcqRel"
   | .seqcst => ordering "SeqCst"
 
+/-- … and back: the memory ordering a Rust value names -/
+def ordOfValue : Value → Option SL.Ord
+  | .enumv "Ordering::Relaxed" [] => some .relaxed
+  | .enumv "Ordering::Acquire" [] => some .acquire
+  | .enumv "Ordering::Release" [] => some .release
+  | .enumv "Ordering::AcqRel" [] => some .acqrel
+  | .enumv "Ordering::SeqCst" [] => some .seqcst
+  | _ => none
+
 /-- the model's locations as the dictionary names them -/
 def locValue : SL.Loc → Value
   | .version => .str "version"
@@ -171,8 +180,9 @@ def openAnswers (lim : Option Nat) (fd : Nat) : FileState → List Value
 def okUnit : Value := .enumv "Ok" [.tuple []]
 
 /-- the operations of `Crash.newOps` as the events the dictionary logs (every operation succeeding); the
-    role of a header write is not part of the event: order and content are -/
-def opValue (path parent : Value) : Crash.Op → Value
+    role of a header write is not part of the event: order and content are.  `o` is the memory ordering of the
+    version store (the model's `SL.Ann.wVersion`; no property constrains it: `Ann.adequate` does not mention it) -/
+def opValue (o : SL.Ord) (path parent : Value) : Crash.Op → Value
   | .createDirAll => evFs "create_dir_all" [parent] okUnit
   | .create => evFs "create" [path] (.enumv "Ok" [fileObj])
   | .writeU32 _ v => evFs "write_u32" [.int .u32 v] okUnit
@@ -180,7 +190,7 @@ def opValue (path parent : Value) : Crash.Op → Value
   | .writeAll n => evFs "write_all" [.int .usize n] okUnit
   | .syncAll => evFs "sync_all" [] okUnit
   | .setLen n => evFs "set_len" [.int .u64 n] okUnit
-  | .storeVersion v => evStore (.str "version") (.int .u16 v) (ordering "Relaxed")
+  | .storeVersion v => evStore (.str "version") (.int .u16 v) (ordValue o)
 
 /-- is a logged event a STATE-CHANGING operation (on the file: create / write / sync / set_len / mkdir; on the
     mapping: a store)?  Queries (open, read, errno, mmap, metadata, stream_position) are not. -/
